@@ -45,6 +45,9 @@ ASSUMPTIONS = [
 TOL_E = 1e-7
 TOL_CI = 1e-6
 TOL_ORACLE = 1e-8      # agreement demanded between the two independent PySCF routes (else harness error)
+TOL_HERM = 1e-6        # anti-Hermitian part / out-of-sector leak of the qubit Hamiltonian that is tolerated: integrals that
+#                        vanish by symmetry up to SCF noise (~1e-8) are dropped one-sidedly by the 1e-8 term thresholds of
+#                        openfermion, which leaves odd-Y terms of that size; the eigenvalue shift is second order
 ENCODINGS = ("JW", "BK", "scBK", "JKMN")
 ORDERINGS = (False, True)
 
@@ -306,10 +309,32 @@ def rotation(kind, part, uhf, nmo, ang):
 # ---------------------------------------------------------------------------------------------------------------------
 # real-code helpers
 
+@contextlib.contextmanager
+def quiet_fds():
+    """Silence PySCF's 'WARN: ECP not specified' lines (written through a stream bound at import time)."""
+    import os
+    import sys
+    sys.stdout.flush()
+    sys.stderr.flush()
+    saved = [os.dup(1), os.dup(2)]
+    null = os.open(os.devnull, os.O_WRONLY)
+    try:
+        os.dup2(null, 1)
+        os.dup2(null, 2)
+        yield
+    finally:
+        sys.stdout.flush()
+        sys.stderr.flush()
+        os.dup2(saved[0], 1)
+        os.dup2(saved[1], 2)
+        for fd in saved + [null]:
+            os.close(fd)
+
+
 def build_molecule(name, gi, uhf, seed):
     from tangelo import SecondQuantizedMolecule
     q, spin, basis, _ = MOLS[name]
-    with contextlib.redirect_stdout(io.StringIO()):
+    with quiet_fds():
         mol = SecondQuantizedMolecule(geometry(name, gi, seed), q=q, spin=spin, basis=basis, frozen_orbitals=None,
                                       uhf=uhf, symmetry=False)
     return mol
@@ -350,11 +375,11 @@ def jw_counts(nq, utd):
 class Combo:
     """One (molecule, geometry, reference) with its SecondQuantizedMolecule, explored over patterns/rotations/encodings."""
 
-    def __init__(self, name, gi, uhf, seed, acc):
+    def __init__(self, name, gi, uhf, seed, acc, mol):
         self.name, self.gi, self.uhf, self.seed, self.acc = name, gi, uhf, seed, acc
         self.ang = angles(seed)
         self.ref = refkind(name, uhf)
-        self.mol = build_molecule(name, gi, uhf, seed)
+        self.mol = mol
         self.nmo = int(self.mol.n_mos)
         self.C0 = copy_C(self.mol.mo_coeff, uhf)
         self.mf = self.mol.mean_field
@@ -571,7 +596,7 @@ class Combo:
                     leak = float(np.max(np.abs(Tm[~inS]))) if (~inS).any() else 0.0
                     B = Tm[S]
                     anti = float(np.max(np.abs(B - B.conj().T)))
-                    if leak > 1e-9 or anti > 1e-9:
+                    if leak > TOL_HERM or anti > TOL_HERM:
                         self.bad("sector_min", "hamiltonian-not-block-hermitian", sige, casee, {"leak": leak, "antiherm": anti})
                         continue
                     e_min = float(np.linalg.eigvalsh((B + B.conj().T) / 2)[0])
@@ -632,9 +657,32 @@ def shards(tier, seed):
     return sh
 
 
+class ConstructionFailed(Exception):
+    pass
+
+
+def make_combo(name, gi, uhf, seed, acc):
+    """Build the molecule; an exception of the real constructor on a catalogue molecule is a finding, not a harness error."""
+    try:
+        mol = build_molecule(name, gi, uhf, seed)
+    except Exception as e:
+        acc.ev()
+        acc.states += 1
+        case = {"kind": "c04", "mol": name, "geom": gi, "uhf": uhf, "seed": seed, "label": "none", "frozen": None, "rot": "id"}
+        acc.violation(f"SecondQuantizedMolecule/exception/{name}:{refkind(name, uhf)}:{type(e).__name__}",
+                      dict(case, focus="SecondQuantizedMolecule/exception"),
+                      {"err": repr(e)[:300], "xyz": geometry(name, gi, seed), "q": MOLS[name][0], "spin": MOLS[name][1],
+                       "basis": MOLS[name][2]}, group="SecondQuantizedMolecule/exception")
+        raise ConstructionFailed()
+    return Combo(name, gi, uhf, seed, acc, mol)
+
+
 def run_shard(sh):
     acc = Acc()
-    cb = Combo(sh["kind"], sh["geom"], sh["uhf"], sh["seed"], acc)
+    try:
+        cb = make_combo(sh["kind"], sh["geom"], sh["uhf"], sh["seed"], acc)
+    except ConstructionFailed:
+        return acc
     pats = _patterns(sh["kind"], sh["uhf"], sh["tier"])
     for i in sh["pat"]:
         label, spec = pats[i]
@@ -644,7 +692,10 @@ def run_shard(sh):
 
 def replay_case(case):
     acc = Acc()
-    cb = Combo(case["mol"], case["geom"], case["uhf"], case["seed"], acc)
+    try:
+        cb = make_combo(case["mol"], case["geom"], case["uhf"], case["seed"], acc)
+    except ConstructionFailed:
+        return acc
     rots = ("id",) if case["rot"] == "id" else ("id", case["rot"])
     encs = (case["enc"],) if case.get("enc") else ENCODINGS
     ords = (case["utd"],) if case.get("enc") else ORDERINGS
@@ -664,7 +715,7 @@ def bounds(tier, seed):
                                         for n in MOL_ORDER if _patterns(n, False, tier) or _patterns(n, True, tier)},
             "rotations": list(ROTATIONS), "angles": angles(seed), "encodings": list(ENCODINGS),
             "orderings(up_then_down)": list(ORDERINGS), "max_active_spin_orbitals": 8 if tier == Q else 12,
-            "tolerances": {"TOL_E": TOL_E, "TOL_CI": TOL_CI, "TOL_ORACLE": TOL_ORACLE}}
+            "tolerances": {"TOL_E": TOL_E, "TOL_CI": TOL_CI, "TOL_ORACLE": TOL_ORACLE, "TOL_HERM": TOL_HERM}}
 
 
 def selftest():
